@@ -312,6 +312,11 @@ func NewFECase(g *Gen, id int) *Case {
 			bad = "<number out of range>"
 			comparable = false
 		}
+		if g.R.Fork(0x15ad).P(15) {
+			// insignificant white space (JSON allows space, tab, line feed and carriage return around the value)
+			f := g.R.Fork(0x15ae)
+			body = []byte(Pick(f, []string{" ", "\r\n", "\t", "\n\n", " \r\n\t "}) + string(body) + Pick(f, []string{"", "\r\n", " ", "\n"}))
+		}
 		if !hugeNumber && g.R.P(18) {
 			bad = Pick(g.R, []string{`null`, ``, `[1,2]`, `{}`, `{"a":`, `12`, `"str"`, ` {} `, string(body) + ` trailing`, `{"a":1}{"b":2}`, `nul`, "\xff"})
 			body = []byte(bad)
@@ -534,6 +539,11 @@ func NewFECase(g *Gen, id int) *Case {
 				if strings.TrimSpace(s) != orig {
 					comparable = false // (a look-alike that is not white space stays: another record)
 				}
+			}
+			if g.R.Fork(0xe701).P(15) {
+				// values that look like the debris of a quoting convention: they are what they are
+				s = Pick(g.R.Fork(0xe702), []string{`"`, `'`, `"`, `'`, `""`, `"x`, `x"`, `'x'`, `" "`, "`"})
+				comparable = false
 			}
 			k := keys[kv.K]
 			if strings.ContainsRune(s, 0) || !strings.HasPrefix(k, "ZV_") {
